@@ -382,7 +382,7 @@ function CEmitter:add_scalar_literal(num, numtype, base)
       self:add_text('(')
     end
     if (not base and num ~= numtype.min and num ~= numtype.max) or
-        base == 10 or num:isneg() then -- use decimal base
+        base == 10 or bn.isneg(num) then -- use decimal base
       self:add_text(bn.todecint(num))
     else -- use hexadecimal base
       self:add('0x', bn.tohexint(num))
